@@ -27,7 +27,7 @@ fn log_at(k: usize) -> u64 { unsafe { if k < CAP { LOG[k] } else { 0 } } }
 fn sp_dd(raw: u64) -> u8 { ((raw >> 1).trailing_zeros() >> 1) as u8 }
 fn sp_hash(raw: u64) -> u64 { let s = 2 + 2 * (sp_dd(raw) as u32); if s < 64 { raw >> s } else { 0 } }
 fn sp_full(raw: u64) -> bool { raw & 1 == 1 }
-fn n_hash(d: u8) -> u64 { if d <= 29 { 12u64 << (2 * d as u32) } else { 0 } }
+pub(crate) fn n_hash(d: u8) -> u64 { if d <= 29 { 12u64 << (2 * d as u32) } else { 0 } }
 /// raw is the encoding of a cell of depth <= dmax with a legal hash
 fn raw_valid(raw: u64, dmax: u8) -> bool {
   let tz = (raw >> 1).trailing_zeros();
@@ -115,7 +115,7 @@ static mut G_PARTIAL_SEEN: bool = false;
 static mut G_STUBBED: bool = false;
 fn stubbed() -> bool { unsafe { G_STUBBED } }
 
-fn g_reset(c: u64, dmax: u8) { unsafe { G_C = c; G_DMAX = dmax; G_LAST_HI = 0; G_STATE = 0; G_COUNT = 0; G_OK = true; G_NPUSH = 0; G_PARTIAL_SEEN = false; } }
+pub(crate) fn g_reset(c: u64, dmax: u8) { unsafe { G_C = c; G_DMAX = dmax; G_LAST_HI = 0; G_STATE = 0; G_COUNT = 0; G_OK = true; G_NPUSH = 0; G_PARTIAL_SEEN = false; } }
 /// append the range [l, h) with the given state (2 full / 1 partial)
 fn g_append(l: u64, h: u64, st: u8) {
   unsafe {
@@ -130,10 +130,10 @@ fn g_push_raw(raw: u64) {
   unsafe { if !raw_valid(raw, G_DMAX) { G_OK = false; } }
   g_append(lo(raw), hi(raw), if sp_full(raw) { 2 } else { 1 });
 }
-fn g_snapshot() -> (u64, u8, u8, bool) { unsafe { (G_LAST_HI, G_STATE, G_COUNT, G_OK) } }
+pub(crate) fn g_snapshot() -> (u64, u8, u8, bool) { unsafe { (G_LAST_HI, G_STATE, G_COUNT, G_OK) } }
 
-fn ghost_new(depth_max: u8, _capacity: usize) -> BMOCBuilderUnsafe { unsafe { G_STUBBED = true; } BMOCBuilderUnsafe { depth_max, entries: None } }
-fn ghost_push(b: &mut BMOCBuilderUnsafe, depth: u8, hash: u64, is_full: bool) -> &mut BMOCBuilderUnsafe {
+pub(crate) fn ghost_new(depth_max: u8, _capacity: usize) -> BMOCBuilderUnsafe { unsafe { G_STUBBED = true; } BMOCBuilderUnsafe { depth_max, entries: None } }
+pub(crate) fn ghost_push(b: &mut BMOCBuilderUnsafe, depth: u8, hash: u64, is_full: bool) -> &mut BMOCBuilderUnsafe {
   assert!(depth <= b.depth_max, "C09 pushed depth <= depth_max");
   assert!(hash < n_hash(depth), "C09 pushed hash < 12*4^depth");
   let dd = b.depth_max - depth;
@@ -155,7 +155,7 @@ fn ghost_iter_next<'a>(it: &mut BMOCIter<'a>) -> Option<Cell> where 'a: 'a {
   }
 }
 
-fn shl(h: u64, dd: u8) -> u64 { if dd <= 30 { h << (2 * dd as u32) } else { 0 } }
+pub(crate) fn shl(h: u64, dd: u8) -> u64 { if dd <= 30 { h << (2 * dd as u32) } else { 0 } }
 
 /// CONTRACT of go_down (tile form): logs cells of flag `flag` tiling exactly
 /// [lo(start), lo(target)) in z-order, then (d,h) := target. Preconditions are what every call
